@@ -54,6 +54,9 @@ T = {
  "C15": ("exploration", "generated instances and single faults from an independent dictionary reader, judged by the library's own verdict (accept / FIXMessageError / anything else), plus verdict comparison under permuted declaration order", "§4 C15",
          "For every message type of both XML dictionaries: valid instances at three member densities (groups 1-3 items, nested 4 deep, MUST-ACCEPT values, with/without header) must validate; eleven classes of single fault at positions spread over all nesting depths must raise FIXMessageError and nothing else; a fixed battery of verdicts must be identical after permuting the order in which components and messages are declared.",
          "the independent reader only generates; members required inside optional components are always present; bad values are blatant (near-misses are C19's)"),
+ "C17": ("exploration", "exchange simulator (FIX 4.4 matrices) + exhaustive interleaving exploration of requests / exchange events / report processing with step monitors and a quiescence oracle on the real order object", "§4 C17",
+         "The real FIXNewOrderSingle is driven through ALL interleavings to depth 9 / 13 (visited-state pruning) and random walks of 40 steps over {new, cancel, replace price / qty up / qty down, process report} x {pending-new, ack, reject, request pending / accepted / rejected, partial and full fills, expire, suspend, resume, unsolicited cancel}; after every step status is an enum member, permitted requests build, use a fresh ClOrdID and the live OrigClOrdID, never two outstanding; at quiescence status / cum / leaves / price / qty equal the exchange's and finished orders refuse requests.",
+         "the exchange model is my reading of FIX 4.4 Vol.4 App.D restricted to what the pinned scenario tests agree on; DONE_FOR_DAY / STOPPED / CALCULATED not generated"),
  "C02": ("exploration", "independent strict framer as oracle on encoder output and on every tapped transport write", "§4 C02",
          "Every byte string the encoder returns for generated messages (incl. non-ASCII) and every write() of a real connection during random session histories is parsed by an independent strict FIX framer (BodyLength/CheckSum recomputed on bytes).",
          "vf.ref.fixwire is the definition of well-formed; empty values tolerated"),
